@@ -233,7 +233,20 @@ func (env *SpecEnv) term(e SExpr) (Val, error) {
 		}
 		return Val{}, fmt.Errorf("slice expression on sort %s", base.S)
 	case *SCall:
+		if i := strings.Index(x.Fun, "."); i > 0 {
+			if _, isSpec := vc.eng.specs[x.Fun]; !isSpec {
+				if recv, err := env.ident(x.Fun[:i]); err == nil {
+					return env.methodCall(recv, x.Fun[i+1:], x.Args)
+				}
+			}
+		}
 		return env.call(x)
+	case *SMethodCall:
+		recv, err := env.term(x.Recv)
+		if err != nil {
+			return Val{}, err
+		}
+		return env.methodCall(recv, x.Name, x.Args)
 	}
 	return Val{}, fmt.Errorf("unsupported spec expression %T", e)
 }
@@ -306,6 +319,9 @@ func (env *SpecEnv) ident(name string) (Val, error) {
 				return vc.vals[p], nil
 			}
 		}
+		if v, ok := vc.paramAlias[name]; ok {
+			return vc.vals[v], nil
+		}
 	}
 	// package-level constants
 	if p := vc.eng.pkgs[env.pkg]; p != nil {
@@ -334,7 +350,7 @@ func (env *SpecEnv) ident(name string) (Val, error) {
 func (env *SpecEnv) loopLocal(name string) (Val, bool, error) {
 	vc := env.vc
 	li := env.loop
-	if li.rangeIdx != nil && li.keyName == name {
+	if li.rangeIdx != nil && (li.keyName == name || name == "$i") {
 		cur, ok := env.cur.locals[li.rangeIdx]
 		if !ok {
 			return Val{}, false, fmt.Errorf("range index of loop %d not live", li.ordinal)
@@ -729,6 +745,7 @@ var builtinSpecFns = map[string]struct {
 }{
 	"pow2":    {"pow2", []string{SInt}, SInt},
 	"pow2big": {"pow2big", []string{SInt}, SInt},
+	"bitsfor": {"bitsfor", []string{SInt}, SInt},
 	"itoa":    {"gs.itoa", []string{SInt}, SStr},
 	"atoi":    {"gs.atoi", []string{SStr}, SInt},
 	"cat":     {"gs.cat", []string{SStr, SStr}, SStr},
@@ -760,6 +777,20 @@ func (env *SpecEnv) call(x *SCall) (Val, error) {
 			// old(local) at a loop: only parameters make sense; locals resolve against the entry state
 			sub.loop = nil
 		}
+		return sub.term(x.Args[0])
+	case "pre":
+		// pre(e): value of e when the enclosing loop was entered (loop invariants only)
+		li := env.enclosingLoop()
+		if li == nil || len(x.Args) != 1 {
+			return Val{}, fmt.Errorf("pre(e) is only available in loop invariants")
+		}
+		ps := env.ex.loopPreSt[li.header]
+		if ps == nil {
+			return Val{}, fmt.Errorf("pre(): no pre-loop state")
+		}
+		sub := env.child()
+		sub.cur = ps
+		sub.results = nil
 		return sub.term(x.Args[0])
 	case "len", "cap":
 		if len(x.Args) != 1 {
@@ -1120,4 +1151,99 @@ func (vc *VC) notePlainUse(t string) {
 			vc.plainUses[name] = true
 		}
 	}
+}
+
+// methodCall: application of a pure Go method inside a contract: the same term a call in code produces.
+func (env *SpecEnv) methodCall(recv Val, name string, argExprs []SExpr) (Val, error) {
+	vc := env.vc
+	if recv.Typ == nil {
+		return Val{}, fmt.Errorf("method %s on untyped value", name)
+	}
+	obj, path, _ := types.LookupFieldOrMethod(recv.Typ, true, nil, name)
+	if obj == nil {
+		if st, _, _ := env.structOf(recv.Typ); st != nil {
+			if n, ok := types.Unalias(st).(*types.Named); ok && n.Obj().Pkg() != nil {
+				obj, path, _ = types.LookupFieldOrMethod(recv.Typ, true, n.Obj().Pkg(), name)
+			}
+		}
+	}
+	m, ok := obj.(*types.Func)
+	if !ok {
+		return Val{}, fmt.Errorf("no method %s on %v", name, recv.Typ)
+	}
+	var args []Val
+	for _, a := range argExprs {
+		v, err := env.term(a)
+		if err != nil {
+			return Val{}, err
+		}
+		args = append(args, v)
+	}
+	sig := m.Type().(*types.Signature)
+	if sig.Results().Len() != 1 {
+		return Val{}, fmt.Errorf("method %s must have exactly one result to be used in a contract", name)
+	}
+	rt := sig.Results().At(0).Type()
+	rsort := vc.sorts.sortOf(rt)
+	for i := range args {
+		if i < sig.Params().Len() {
+			pt := sig.Params().At(i).Type()
+			if args[i].S == "NIL" {
+				args[i] = nilOf(Val{S: vc.sorts.sortOf(pt), Typ: pt})
+			}
+			args[i].Typ = pt
+		}
+	}
+	if _, isIface := recv.Typ.Underlying().(*types.Interface); isIface {
+		n, ok := types.Unalias(recv.Typ).(*types.Named)
+		if !ok {
+			return Val{}, fmt.Errorf("method call on unnamed interface")
+		}
+		key := "iface:" + n.Obj().Pkg().Name() + "." + n.Obj().Name() + "." + name
+		fc := vc.eng.contracts[key]
+		if fc == nil || !fc.Pure {
+			return Val{}, fmt.Errorf("%s has no pure interface-level contract", key)
+		}
+		rs := vc.eng.ifaceReads(recv.Typ, m)
+		all := append([]Val{recv}, args...)
+		names := append([]string{fc.RecvName}, fc.ParamNames...)
+		return Val{T: env.ex.pureTerm(fc, key, names, all, env.cur, rs, 0, rsort), S: rsort, Typ: rt}, nil
+	}
+	// static method: walk embedded fields to the declared receiver
+	cur := recv
+	for _, idx := range path[:len(path)-1] {
+		st, sty, isPtr := env.structOf(cur.Typ)
+		if st == nil || !isPtr {
+			return Val{}, fmt.Errorf("promoted method %s through a non-pointer receiver", name)
+		}
+		ft := sty.Field(idx).Type()
+		if _, nested := ft.Underlying().(*types.Struct); nested {
+			cur = Val{T: "(" + vc.fieldAddrFn(st, idx) + " " + cur.T + ")", S: SInt, Typ: types.NewPointer(ft)}
+		} else {
+			hi := vc.fieldHeap(st, idx)
+			cur = Val{T: "(select " + vc.heapGet(env.cur, hi) + " " + cur.T + ")", S: hi.valSort, Typ: ft}
+		}
+	}
+	fn := vc.eng.prog.FuncValue(m)
+	if fn == nil {
+		return Val{}, fmt.Errorf("method %s has no SSA function", name)
+	}
+	key := funcKey(fn)
+	fc := vc.eng.contracts[key]
+	if fc == nil || !fc.Pure {
+		return Val{}, fmt.Errorf("%s is not declared pure; only pure methods may be called in contracts", key)
+	}
+	// value receiver given a pointer: load the struct
+	if _, wantsPtr := sig.Recv().Type().Underlying().(*types.Pointer); !wantsPtr {
+		if _, havePtr := cur.Typ.Underlying().(*types.Pointer); havePtr {
+			return Val{}, fmt.Errorf("value-receiver method %s on a pointer in a contract is not supported", name)
+		}
+	}
+	rs := vc.eng.readsOf(fn)
+	all := append([]Val{cur}, args...)
+	var names []string
+	for _, p := range fn.Params {
+		names = append(names, p.Name())
+	}
+	return Val{T: env.ex.pureTerm(fc, key, names, all, env.cur, rs, 0, rsort), S: rsort, Typ: rt}, nil
 }
